@@ -4,7 +4,7 @@ import ast
 import re
 
 from ..pycfg import CFG, walk_no_nested
-from ..source import atoms, AnalysisError, find_function, find_class, first_line, src, functions, enclosing_function, enclosing_class, qualname
+from ..source import atoms, AnalysisError, find_function, find_class, first_line, src, functions, enclosing_function, enclosing_class, qualname, linear
 
 SM = "nemoguardrails/colang/v2_x/runtime/statemachine.py"
 FLOWS = "nemoguardrails/colang/v2_x/runtime/flows.py"
@@ -39,6 +39,51 @@ def run(ctx):
     b_instance_uid_unique(ctx)
     d_index_key_fresh(ctx)
     g_action_refs(ctx)
+    g_group_members_copied(ctx)
+
+
+EXP_ = "nemoguardrails/colang/v2_x/lang/expansion.py"
+
+
+def g_group_members_copied(ctx):
+    """`every action or flow referenced by a running flow still exists`, `no stale entry remains`: the normaliser of and/or groups puts ONE Spec object of a member into every
+    and-group it belongs to (`start (a or b) and c`: c is in both).  _expand_element_group hands each member on as the `spec` of a new statement, and the expansion of THAT
+    statement writes into the spec (`start`: flow_instance_uid).  Handed on uncopied, the first group starts c with the second group's uid variable: an instance with the uid
+    'None', later a second instance under a uid in use - the running instance is overwritten and its head stays in the dispatch index (F167)."""
+    mod = ctx.tree.ast(EXP_)
+    nf = find_function(mod, "normalize_element_groups")
+    fn = find_function(mod, "_expand_element_group")
+    if nf is None or fn is None:
+        raise AnalysisError("normalize_element_groups / _expand_element_group not found", anchor=EXP_ + "::_expand_element_group")
+    shares = not any(isinstance(c, ast.Call) and src(c.func) in ("copy.deepcopy", "deepcopy", "copy.copy") for c in ast.walk(nf))
+    loops = [l for l in ast.walk(fn) if isinstance(l, ast.For) and isinstance(l.target, ast.Name) and "elements" in src(l.iter)]
+    n = 0
+    for l in loops:
+        v = l.target.id
+        for c in ast.walk(l):
+            if isinstance(c, ast.Call) and src(c.func) == "SpecOp":
+                for k in c.keywords:
+                    if k.arg == "spec" and any(isinstance(x, ast.Name) and x.id == v for x in ast.walk(k.value)):
+                        # with a single and-group no member is in two groups: that branch is exempt
+                        single = False
+                        child, par = c, getattr(c, "_parent", None)
+                        while par is not None and par is not fn:
+                            if isinstance(par, ast.If) and re.sub(r"\s", "", src(par.test)).endswith("==1") and "len(" in src(par.test) and any(
+                                    child is b_ or any(child is y for y in ast.walk(b_)) for b_ in par.body):
+                                single = True
+                            child, par = par, getattr(par, "_parent", None)
+                        if single:
+                            continue
+                        n += 1
+                        copied = isinstance(k.value, ast.Call) and src(k.value.func) in ("copy.deepcopy", "deepcopy") or any(
+                            isinstance(a, ast.Assign) and src(a.targets[0]) == v and isinstance(a.value, ast.Call) and src(a.value.func) in ("copy.deepcopy", "deepcopy")
+                            and a.lineno < c.lineno for a in l.body)
+                        ok = copied or not shares
+                        ctx.check("C09.g.group-members-copied", EXP_, "_expand_element_group", "SpecOp(spec=%s)" % first_line(k.value, 40), ok,
+                                  "the member handed on to the next expansion is a copy" if ok else
+                                  "the member `%s` is handed on as it is, but the normaliser shares one object between the and-groups it belongs to and the expansion of the new statement "
+                                  "writes into it: in `start (a or b) and c` both groups start c with the LAST group's instance uid variable" % v, line=c.lineno)
+    ctx.floor("C09.g.group-members-copied", EXP_, "group members handed on as the spec of a new statement", n, 1)
 
 
 def a_setters(ctx):
@@ -139,7 +184,7 @@ def b_construct(ctx):
             add = find_function(t, "add_new_flow_instance")
             ok, msg = False, "inline construction but add_new_flow_instance not found"
             if add is not None:
-                hv = [s.targets[0].id for s in add.body if isinstance(s, ast.Assign) and isinstance(s.targets[0], ast.Name) and ".heads" in src(s.value)]
+                hv = [s.targets[0].id for s in linear(add.body) if isinstance(s, ast.Assign) and isinstance(s.targets[0], ast.Name) and ".heads" in src(s.value)]
                 if hv:
                     b = _bindings(add, hv[0])
                     fs = add.args.args[1].arg
